@@ -189,20 +189,136 @@ def oracle(scn, res):
     return out
 
 
+# ---------------------------------------------------------------------------
+# --shuffle: every order the shuffle can produce (the hook REDO_VERIF_SHUFFLE=k selects the k-th permutation of each list)
+
+def shuffle_world():
+    return World("dup-lists", {"s": ["0", "1"]},
+                 {"top.do": [S(deps=["lib", "lib", "gen", "lib"])], "lib.do": [S(deps=["s"])], "gen.do": [S(deps=["s"], out="file")]},
+                 ["top", "lib", "gen"], ["top"])
+
+
+SHUFFLE_CMDS = [(["redo", "--no-log", "--shuffle", "top"], {}),
+                (["redo-ifchange", "gen", "lib", "lib", "top"], {"REDO_SHUFFLE": "1"}),
+                (["redo-ifchange", "lib", "gen", "lib"], {"REDO_SHUFFLE": "1"})]
+
+
+def _shuffle_job(job):
+    bindir, root, ci, k, jn, pre = job
+    import os
+    import shutil
+    import time
+    from ..e1 import Project
+    w = shuffle_world()
+    argv, env = SHUFFLE_CMDS[ci]
+    d = os.path.join(root, "s%d_%d" % (os.getpid(), time.monotonic_ns()))
+    os.makedirs(d)
+    try:
+        proj = Project(w, bindir, d)
+        if pre == "rebuild":
+            o = proj.op(["ifchange", ["top"]])
+            if o["rc"] != 0:
+                return {"job": job[2:], "bad": [("shuffle-prestate-failed", o["err"][-300:])]}
+            proj.op(["edit", "s", "1"])
+            proj.read_trace()
+        a = list(argv)
+        if jn > 1:
+            if a[0] == "redo":
+                a.insert(1, "-j%d" % jn)
+            else:
+                a = ["redo", "--no-log", "-j%d" % jn] + a[1:]     # redo-ifchange takes no -j: the same list, forced
+        e = dict(env)
+        if k is not None:
+            e["REDO_VERIF_SHUFFLE"] = str(k)
+        else:
+            e.pop("REDO_SHUFFLE", None)
+            a = [x for x in a if x != "--shuffle"]
+        rc, out, err = proj.redo(a, {"env": e})
+        trace = [l.split(" ")[1] for l in proj.read_trace() if l.startswith("B ")]
+        files = {n: c for n, (c, _i) in proj.snapshot().items() if n in w.targets}
+        m = Model(w)
+        if pre == "rebuild":
+            m.user_write("s", "1")
+        want = {t: m.evaluate(t) for t in w.targets if t in a or "top" in a}
+        bad = []
+        if rc != 0:
+            bad.append(("shuffled-build-failed", err[-300:]))
+        for t, v in want.items():
+            if files.get(t) != v:
+                bad.append(("shuffled-build-wrong-content", "%s: want %r got %r" % (t, v, files.get(t))))
+        from collections import Counter
+        cnt = Counter(trace)
+        forced = a[0] == "redo"
+        for t in want:
+            n_ok = (1, 2) if forced and t != "top" and "top" in a and t in a else (1,)   # a forced command-line target that top also built
+            if cnt.get(t, 0) not in n_ok:
+                bad.append(("shuffled-build-ran-%s-%d-times" % (t, cnt.get(t, 0)), " ".join(trace)))
+        return {"job": job[2:], "bad": bad, "order": " ".join(trace)}
+    finally:
+        shutil.rmtree(d, ignore_errors=True)
+
+
+def shuffle_part(tier, verdict):
+    import concurrent.futures
+    bindir = str(common.build_subject())
+    root = str(common.scratch_root() / "c07sh")
+    import os
+    os.makedirs(root, exist_ok=True)
+    jobs = []
+    for ci in range(len(SHUFFLE_CMDS)):
+        for pre in ("fresh", "rebuild"):
+            for jn in ((1, 2) if tier == "quick" else (1, 2, 3)):
+                for k in [None] + list(range(24)):
+                    jobs.append((bindir, root, ci, k, jn, pre))
+    orders = set()
+    nbad = 0
+    with concurrent.futures.ProcessPoolExecutor(max_workers=min(16, common.NCPU)) as ex:
+        for r in ex.map(_shuffle_job, jobs, chunksize=4):
+            ci, k, jn, pre = r["job"]
+            if jn == 1 and r.get("order"):
+                orders.add((ci, pre, r["order"]))
+            for kind, detail in r["bad"]:
+                nbad += 1
+                verdict.report({"kind": kind, "command": " ".join(SHUFFLE_CMDS[ci][0]), "j": jn, "prestate": pre},
+                               {"engine": "E1-shuffle", "permutation": k, "detail": detail, "job": [ci, k, jn, pre]})
+    if len({o for c, p, o in orders if c == 1 and p == "fresh"}) < 4:
+        raise common.MachineryError("vacuous: the shuffle hook did not produce different orders")
+    return {"commands": [" ".join(c) for c, _e in SHUFFLE_CMDS], "permutations_per_command": 24, "runs": len(jobs),
+            "distinct_serial_execution_orders": len(orders), "violating": nbad}
+
+
 def main(tier):
-    return e2prop.run_property(
-        PID, tier, scenarios(tier), oracle, prepare=prepare,
+    v = common.Verdict(PID)
+    shcov = shuffle_part(tier, v)
+    rc_sh = v.finish()
+    rc = e2prop.run_property(
+        PID, tier, scenarios(tier), oracle, prepare=prepare, extra={"shuffle": shcov, "shuffle_violations": v.count},
         rule="one top-level invocation at -j2/-j3 on graphs with shared nodes (diamond, 3-fan over a shared leaf, two targets over a "
              "shared chain in every command-line order = every --shuffle outcome, shared checksummed node on a rebuild, shared "
              "redo-always node); every schedule with <= b deviations (quick 1, thorough 2). Oracle: no script starts twice in the run; "
              "exit status, every file's content, the set of built targets and the canonical database state (names, flags, csum, stamp "
              "class, which run-id columns are set, dependency edges) equal those of the serial (-j1) run of the same scenario",
-        assumptions=["no other invocation active", "the serial run is the default schedule of the same scenario without -j"],
+        assumptions=["no other invocation active", "the serial run is the default schedule of the same scenario without -j",
+                     "--shuffle: every permutation of every list of <= 4 names (hook REDO_VERIF_SHUFFLE), lists with repeated names, "
+                     "-j1 and (free-running) -j2: exit 0, contents == from-scratch evaluation, every script once"],
         budget_s=600 if tier == "quick" else 3000)
+    return 1 if (rc or rc_sh) else 0
 
 
 def replay(path):
     doc = json.load(open(path))
+    if doc.get("engine") == "E1-shuffle":
+        import os
+        bindir = str(common.build_subject())
+        root = str(common.scratch_root() / "c07sh")
+        os.makedirs(root, exist_ok=True)
+        r = _shuffle_job((bindir, root) + tuple(doc["job"]))
+        common.cleanup_scratch()
+        print(json.dumps(r, indent=1))
+        if r["bad"]:
+            print("VIOLATION-REPLAYED", r["bad"])
+            return 1
+        return 0
     sc = {s["name"]: s for s, _ in scenarios("thorough")}
     bindir = common.build_subject()
     from ..e2 import explore
